@@ -41,7 +41,20 @@ def run(ctx):
         if gerr:
             vlib.violation(ctx, {"broken": gerr}, no_input=True)
         else:
-            n2, d2, sample2 = c06.l2_phase(ctx, exe, random.Random(ctx.seed + 101), 10 if ctx.tier == "quick" else 60, crate="c01l2")
+            # fixed family first: ONE field over a whole field set whose byte count is not a carrier size (3, 5, 6, 7 bytes), every
+            # order combination, unsigned and signed — the bytes of the value land where the byte order says (seed C01-10
+            # shortcut such fields through from_be_bytes on a front-aligned copy)
+            import adef
+            whole = [(sz, bo, bi, base) for sz in (24, 40, 48, 56) for bo in ("LE", "BE") for bi in ("LSB0", "MSB0") for base in ("uint", "int")]
+            fam = []
+            for k in range(0, len(whole), 4):
+                objs = [adef.mk_register(["Ra", "Rb", "Rc", "Rd"][j], j, sz, [adef.mk_field("alpha", base, 0, sz)], byte_order=bo, bit_order=bi)
+                        for j, (sz, bo, bi, base) in enumerate(whole[k:k + 4])]
+                fam.append({"config": adef.mk_config(register_address_type="u16"), "objects": objs})
+            if ctx.tier == "quick":
+                fam = fam[ctx.seed % 2::2]
+            n2, d2, sample2 = c06.l2_phase(ctx, exe, random.Random(ctx.seed + 101), 10 if ctx.tier == "quick" else 60, crate="c01l2",
+                                           extra_defs=fam)
             stats["generated_level_queries"] = n2
             stats["evaluations"] += n2
             if d2:
